@@ -9,7 +9,7 @@ PROPS["C36"] = {
     "level": "proof",
     "level_text": "Unbounded Verus proof over the bloom filter's functions sliced verbatim from /repo on every run: might_contain(v) == all k probe bits set, insert sets them and clears nothing, for every size/hash count/history. Hash-index clause: BOUNDED stand-in (not counted as proved) — every history of <= 5 insert/remove/rebuild operations over 4 tuples, get/get_with_bloom/probe return exactly the stored tuples with the probe key.",
     "level_note": "trusted: Verus+Z3; hash_pair deterministic (external_body); count<usize::MAX; HashIndex not covered",
-    "technique": "Verus contracts (requires/ensures/loop invariants) on functions extracted from /repo each run, erasure-checked",
+    "technique": "Verus contracts (requires/ensures/loop invariants) on functions extracted from /repo each run, erasure-checked; plus always-run bounded stand-in tests on the real code for the clauses outside both verifiers (labelled bounded, never counted as proved)",
     "aux_failure": "violation",
     "functions_under_contract": ["src/bloom_filter.rs: BloomFilter::{with_params, clear, insert, might_contain, get_bit_index}",
                                  "src/bloom_filter.rs: BloomFilter::hash_pair (assumed contract: deterministic function of its argument)"],
@@ -31,7 +31,7 @@ PROPS["C28"] = {
     "level": "proof",
     "level_text": "Unbounded Verus proof over the six authorization functions of src/auth.rs and the real Role/KgRole/Statement/MetaCommand definitions, all sliced from /repo on every run; payload types are opaque, so the result holds for every statement value. Lattice, viewer-read-only and admin-only clauses are theorems over the function contracts.",
     "level_note": "trusted: Verus+Z3; the classification mutates_persistent/admin_only is written from the property statement; global Viewer gate defers data statements to the per-KG gate (the per-KG viewer clause is the one proved read-only); the handler's use of these functions is not covered (C27)",
-    "technique": "Verus contracts (ensures) on functions extracted from /repo each run, erasure-checked; theorems over the contracts",
+    "technique": "Verus contracts (ensures) on functions extracted from /repo each run, erasure-checked; theorems over the contracts; a bounded witness search on the real code supplies failing inputs after a failed obligation",
     "aux_failure": "violation",
     "functions_under_contract": ["src/auth.rs: authorize_kg_operation, authorize_kg_editor, authorize_kg_viewer, authorize_statement, authorize_non_admin, authorize_non_admin_meta",
                                  "types extracted verbatim: auth::Role, auth::KgRole, statement::Statement, statement::meta::MetaCommand"],
@@ -52,7 +52,7 @@ PROPS["C32"] = {
     "level": "proof",
     "level_text": "Unbounded Verus proof of the dedup loop of KnowledgeGraph::insert_in_memory (statement region sliced from /repo each run): the stored vector stays duplicate-free, its contents become old ∪ batch (in-batch duplicates included), new_count + dup_count = batch size and new_count = growth. Insert clause only; delete / conditional delete / update clauses are not decided. BOUNDED stand-in for the delete clause (not counted as proved): delete batches mixing present, absent and repeated tuples through StorageEngine against a set model.",
     "level_note": "trusted: Verus+Z3; Vec::contains is membership under PartialEq; Tuple's derived PartialEq/Clone are element-wise (C31 covers Value); the map lookup binding `existing_tuples`, and that the counters reach the caller unchanged, are outside the region",
-    "technique": "Verus loop invariant on a statement region extracted from /repo each run, erasure-checked",
+    "technique": "Verus loop invariant on a statement region extracted from /repo each run, erasure-checked; plus always-run bounded stand-in tests on the real code for the clauses outside both verifiers (labelled bounded, never counted as proved)",
     "aux_failure": "violation",
     "functions_under_contract": ["src/storage_engine/mod.rs: KnowledgeGraph::insert_in_memory — region: counter declarations + `for tuple in tuples {..}`"],
     "assumptions": [
@@ -74,7 +74,7 @@ PROPS["C11"] = {
     "level": "proof",
     "level_text": "Unbounded Verus proof of the merge loop of consolidate_to_current (the function a restart replays the durable log through), sliced from /repo each run: for every tuple the net multiplicity of the output equals that of the log, no tuple appears twice, no zero entry remains. This is the recovery-function half of C11; that the write path keeps the log's net multiplicities equal to the live set is not decided. BOUNDED stand-ins on the whole engine (not counted as proved): every clean insert/delete history of length <= 5 over 2 tuples through StorageEngine, save, restart; histories with re-inserts / absent deletes (length <= 3) expose a genuine write-path defect recorded as a known finding.",
     "level_note": "trusted: Verus+Z3; slice::sort_by groups equal data (replaced by precondition `grouped`, relies on C31); |diff|<=1 and len<2^62 (no i64 overflow); write path (locks + file system) not covered",
-    "technique": "Verus loop invariant on a statement region extracted from /repo each run, erasure-checked",
+    "technique": "Verus loop invariant on a statement region extracted from /repo each run, erasure-checked; plus always-run bounded stand-in tests on the real code for the clauses outside both verifiers (labelled bounded, never counted as proved)",
     "aux_failure": "violation",
     "functions_under_contract": ["src/storage/persist/consolidate.rs: consolidate_to_current — region from `let mut write_idx = 0;` to `updates.truncate(write_idx);`",
                                  "src/storage/persist/batch.rs: struct Update (verbatim)"],
@@ -96,7 +96,7 @@ PROPS["C31"] = {
     "level": "proof",
     "level_text": "Kani/CBMC harnesses over the real Eq/Ord/Hash impls of Value and Tuple: per value kind (concrete discriminant, fully symbolic payload) the binary laws cmp==Equal<=>==, antisymmetry, ==⇒equal hash feed, and transitivity over symbolic triples; cross-kind order shown payload-independent and the 9x9 kind table a strict total order; a Verus meta-lemma lifts these to 'total order on all values' and lexicographically to tuples. Complete (full bit-vector domain) for Null/Bool/Int32/Int64/Float64/Timestamp; strings, vectors and tuples are BOUNDED (payload length <= 1, thorough <= 2) and not counted as proved. BOUNDED stand-in for longer payloads (not counted as proved): all pairs and triples of ~85 representative values incl. strings up to 41 chars and vectors up to 33 elements that differ only late, and ~100 tuples.",
     "level_note": "trusted: Kani 0.68 + CBMC 6.11; std's str/slice Ord, Eq, Hash and Arc deref; Hash observed as the byte sequence fed to the Hasher (SipHash itself not executed); heap kinds bounded",
-    "technique": "Kani proof harnesses injected as a child module of src/value/mod.rs in a scratch copy (insert-only), full-domain symbolic scalars with concrete enum kinds; Verus meta-lemma for the ordinal-sum / lexicographic lifting",
+    "technique": "Kani proof harnesses injected as a child module of src/value/mod.rs in a scratch copy (insert-only), full-domain symbolic scalars with concrete enum kinds; Verus meta-lemma for the ordinal-sum / lexicographic lifting; plus always-run bounded stand-in tests on the real code for the clauses outside both verifiers (labelled bounded, never counted as proved)",
     "aux_failure": "violation",
     "functions_under_contract": ["src/value/mod.rs: <Value as PartialEq>::eq, <Value as Ord>::cmp, <Value as PartialOrd>::partial_cmp, <Value as Hash>::hash, <Tuple as Ord>::cmp, Tuple's derived PartialEq"],
     "assumptions": [
@@ -115,7 +115,7 @@ PROPS["C35"] = {
     "level": "proof",
     "level_text": "Kani/CBMC harnesses over the real compare_wire_values: reflexivity, antisymmetry and transitivity on fully symbolic triples within each comparison class (Int64 and Float64 form one class, every mix), payload-independent strict order across classes, class table a strict total order; with the ordinal-sum meta-lemma (Verus, shared with C31) this makes the comparator a total preorder on every mix of kinds, i.e. sort_by cannot observe an inconsistent comparator. Complete for absent/Null/Bool/Int32/Int64/Float64/Timestamp; strings/vectors/bytes BOUNDED (len<=1). Comparator clause only: the slice/total-count clauses (apply_pagination, sort_rows on Vec<WireTuple>) are not decided. BOUNDED stand-in for the slice and sort clauses (not counted as proved): apply_pagination against the slice definition for len <= 6 and every limit/offset <= 8; sort_rows on every sequence of <= 4 rows from 11 mixed-kind values: permutation, sorted under the comparator, no panic.",
     "level_note": "trusted: Kani+CBMC; std String::cmp; slice::sort_by sorts when given a total preorder; pagination/total count not covered (CBMC out of memory on 3 rows; Verus rejects the iterator chain)",
-    "technique": "Kani proof harnesses injected as a child module of src/protocol/handler.rs in a scratch copy (insert-only), full-domain symbolic scalars with concrete enum kinds; ordinal-sum meta-lemma in Verus",
+    "technique": "Kani proof harnesses injected as a child module of src/protocol/handler.rs in a scratch copy (insert-only), full-domain symbolic scalars with concrete enum kinds; ordinal-sum meta-lemma in Verus; plus always-run bounded stand-in tests on the real code for the clauses outside both verifiers (labelled bounded, never counted as proved)",
     "aux_failure": "violation",
     "functions_under_contract": ["src/protocol/handler.rs: compare_wire_values, wire_value_type_rank (private; reached from an injected child module)"],
     "assumptions": [
@@ -149,7 +149,7 @@ PROPS["C12"] = {
     "level": "proof",
     "level_text": "Kani/CBMC over the real Value accessors, data_type and ==, composed exactly as build_column_array / extract_value_from_array compose them (pairing generated from their match arms on every run): for each scalar column type, a value of the column's own kind, Null, and a value of every other scalar kind must come back == (same kind, same bits). Full bit-vector domain per kind (strings: 1 byte). This is the per-column coercion kernel of the batch-file path; WAL JSON encoding, vectors and the Arrow/Parquet libraries themselves are not covered. Two genuine defects are recorded as known findings with residual obligations. BOUNDED stand-in on the whole engine (not counted as proved): 14 relations (one per value kind incl. NaN/inf/-0.0 floats, Nulls in typed columns, an all-Null relation, f32/int8 vectors, four mixed-kind relations) inserted through StorageEngine, restarted with and without save, compared value for value and kind for kind.",
     "level_note": "trusted: Kani+CBMC; Arrow arrays return the Option<payload> they were built from; Parquet round-trips Arrow; the generator's reading of the two match statements (a changed arm it cannot read is exit 2)",
-    "technique": "Kani proof harnesses injected as a child module of src/value/arrow_convert.rs in a scratch copy; accessor/constructor pairing generated from the source's match arms each run",
+    "technique": "Kani proof harnesses injected as a child module of src/value/arrow_convert.rs in a scratch copy; accessor/constructor pairing generated from the source's match arms each run; plus always-run bounded stand-in tests on the real code for the clauses outside both verifiers (labelled bounded, never counted as proved)",
     "aux_failure": "violation",
     "functions_under_contract": ["src/value/mod.rs: Value::{data_type, as_i32, as_i64, as_f64, as_str, as_bool, as_timestamp}, <Value as PartialEq>::eq",
                                  "src/value/arrow_convert.rs: build_column_array, extract_value_from_array (match arms read mechanically, bodies not executed: Arrow arrays are outside CBMC's reach)"],
@@ -170,7 +170,7 @@ PROPS["C03"] = {
     "level": "proof",
     "level_text": "Unbounded Verus proof, by structural induction over the real IRNode, that CodeGenerator::contains_join (sliced from /repo each run) returns true for every plan containing an operator that does not distribute over input partitions (Join, JoinFlatMap, Antijoin, Aggregate) — i.e. partitioned multi-worker execution is only ever used on distributing plans. Kani executes the real function (including the real Iterator::any) on 12 concrete trees (BOUNDED companion; supplies replayable counterexamples). The DD executions themselves and the partitioning function are outside both verifiers: this decides the guard, the necessary condition on which C03 rests. BOUNDED stand-in on the whole engine (not counted as proved): 20 programs covering every operator class, incl. unions of aggregates, with 2/3/4/8 workers against 1 worker — this is what notices a change at the call site execute_with_config that bypasses the guard.",
     "level_note": "trusted: Verus+Z3, Kani+CBMC; assumed contract for Iterator::any on the Union arm; partition_data_for_worker assigns each tuple to exactly one worker; union of per-partition results equals the single-worker result for distributing plans (relational algebra, not checked)",
-    "technique": "Verus postcondition on a recursive function extracted from /repo each run (erasure-checked, one listed substitution); Kani harnesses on concrete plan trees injected into a scratch copy",
+    "technique": "Verus postcondition on a recursive function extracted from /repo each run (erasure-checked, one listed substitution); Kani harnesses on concrete plan trees injected into a scratch copy; plus always-run bounded stand-in tests on the real code for the clauses outside both verifiers (labelled bounded, never counted as proved)",
     "aux_failure": "violation",
     "functions_under_contract": ["src/code_generator/mod.rs: CodeGenerator::contains_join", "src/ir/mod.rs: enum IRNode (verbatim)"],
     "assumptions": [
@@ -191,7 +191,7 @@ PROPS["C05"] = {
     "level": "proof",
     "level_text": "Index remapping of the optimizer, the mechanism C05 names: (1) Verus, unbounded, on Optimizer::pushdown_filters, right_pushdown_offset and nth_non_key_column sliced from /repo each run — at the right-push site the pushed predicate reads, for every tested column, the right-input column that the join output (left ++ right non-key columns) shows at that position; (2) Kani on the real adjust_predicate_columns / get_predicate_columns for 26 scalar predicate variants over the full range of columns/offsets/constants (these are the contracts the Verus unit assumes) and on remap_projection_for_join_flatmap (BOUNDED: left<=3, right arity 4). The other rewrite passes (fuse_*, eliminate_*, join reordering, boolean specialization) and the statement 'every rewrite denotes the same relation' are not decided. BOUNDED stand-in on the whole pipeline (not counted as proved): 26 programs x 7 optimizer configurations must return the same relation; one program fails on the pinned code (known finding: join planning conflates same-head rules).",
     "level_note": "trusted: Verus+Z3, Kani+CBMC; the Join output layout (left ++ right non-key columns) is the contract taken from code_generator's join; output_schema().len() < 2^31; slice::contains is membership; HashMap-carrying predicate variants (ColumnCompareArith, ArithCompareConst) are outside the Kani harnesses; termination of pushdown_filters not proved",
-    "technique": "Verus contracts + program-point obligation on functions extracted from /repo each run (erasure-checked, two listed closure-pattern substitutions); Kani harnesses for the assumed helper contracts",
+    "technique": "Verus contracts + program-point obligation on functions extracted from /repo each run (erasure-checked, two listed closure-pattern substitutions); Kani harnesses for the assumed helper contracts; plus always-run bounded stand-in tests on the real code for the clauses outside both verifiers (labelled bounded, never counted as proved)",
     "aux_failure": "violation",
     "functions_under_contract": ["src/optimizer/mod.rs: Optimizer::pushdown_filters, right_pushdown_offset, nth_non_key_column (Verus); adjust_predicate_columns, get_predicate_columns, remap_projection_for_join_flatmap (Kani)", "src/ir/mod.rs: enum IRNode (verbatim)"],
     "assumptions": [
@@ -213,7 +213,7 @@ PROPS["C33"] = {
     "level": "proof",
     "level_text": "Conformance: unbounded Verus proof that SchemaType::matches (and the storage-level DataType::matches), sliced from /repo each run together with the real Value/DataType/SchemaType definitions, equal the type table for EVERY value incl. every vector dimension. Enforcement: Kani on the real ValidationEngine::validate_batch/validate_tuple — accepted iff every tuple has the schema's arity and every value matches — BOUNDED (1 tuple x 1 column in quick; 2 tuples and arity mismatch in thorough) and therefore not counted as proved. That every insert path calls the validator is not decided. BOUNDED stand-in (not counted as proved): batches of 1..1000 tuples over an (int, string, vector(2)) schema with one bad tuple of 8 kinds at the first/middle/last position.",
     "level_note": "trusted: Verus+Z3, Kani+CBMC; the type table `conforms` is the spec's reading of docs/spec/types.md plus the documented int->float and int-as-timestamp coercions; alloc::fmt::format stubbed in the Kani harnesses; handler call sites not covered",
-    "technique": "Verus postconditions on functions extracted from /repo each run (bodies filled in by the extractor, erasure-checked); Kani bounded harnesses on the validator injected into a scratch copy",
+    "technique": "Verus postconditions on functions extracted from /repo each run (bodies filled in by the extractor, erasure-checked); Kani bounded harnesses on the validator injected into a scratch copy; plus always-run bounded stand-in tests on the real code for the clauses outside both verifiers (labelled bounded, never counted as proved)",
     "aux_failure": "violation",
     "functions_under_contract": ["src/schema/mod.rs: SchemaType::matches", "src/value/mod.rs: DataType::matches; enum Value, enum DataType (verbatim)", "src/schema/validator.rs: ValidationEngine::validate_batch, validate_tuple (Kani, bounded)"],
     "assumptions": [
@@ -233,7 +233,7 @@ PROPS["C26"] = {
     "level": "proof",
     "level_text": "Probe-sequence clause: unbounded Verus proof on lsh_probes (sliced from /repo each run) — at most num_probes entries, first is the bucket, every entry is the bucket with a valid 0..3-bit flip below min(num_hyperplanes,62), strictly increasing in (flip count, positions), hence pairwise distinct and non-decreasing in flip count; Kani links flip count to the real hamming_distance for every bucket/positions and proves the hamming/abs laws over full domains. Float laws (manhattan, euclidean, cosine range) are Kani harnesses over every finite f32 at FIXED dimension 1–2: BOUNDED, not counted as proved. Not decided: quantize/dequantize error, cosine symmetry and self-distance, LSH bucket independence from the hyperplane cache under concurrency. BOUNDED stand-in (not counted as proved): distance laws, cosine range and exact self-distance, symmetric int8 quantisation error on 480 pseudo-random vector pairs of dimension 0..33 incl. huge/tiny/zero elements; lsh_bucket unchanged across cache clear / eviction / resize (sequential).",
     "level_note": "trusted: Verus+Z3, Kani+CBMC incl. CBMC's float and sqrt models (float counterexamples are replayed on the real code before they count); lsh_probes' contract fixes the enumeration order inside a flip class (stronger than the property)",
-    "technique": "Verus loop invariants with a ghost witness on a function extracted from /repo each run (erasure-checked); Kani harnesses injected into a scratch copy",
+    "technique": "Verus loop invariants with a ghost witness on a function extracted from /repo each run (erasure-checked); Kani harnesses injected into a scratch copy; plus always-run bounded stand-in tests on the real code for the clauses outside both verifiers (labelled bounded, never counted as proved)",
     "aux_failure": "violation",
     "functions_under_contract": ["src/vector_ops.rs: lsh_probes (Verus)", "src/vector_ops.rs: hamming_distance, abs_i64, abs_f64, manhattan_distance, euclidean_distance, euclidean_distance_squared, cosine_distance, cosine_distance_checked (Kani)"],
     "assumptions": [
